@@ -312,9 +312,27 @@ def render_module(state: dict[str, Any], mid: str, stub: bool = False) -> str:
     return text
 
 
+PLUGIN_TEXT = '''from mypy.plugin import Plugin
+# plugin version {n}
+class SimPlugin(Plugin):
+    def get_function_hook(self, fullname):
+        if fullname.endswith(".f1"):
+            return hook
+        return None
+def hook(ctx):
+    return ctx.api.named_generic_type("builtins.{t}", [])
+def plugin(version):
+    return SimPlugin
+'''
+
+
 def render_files(state: dict[str, Any]) -> dict[str, str]:
     """path -> text for every file that exists in this state."""
     files: dict[str, str] = {}
+    if state.get("plugin") is not None:
+        n = int(state["plugin"])
+        files["simplug.py"] = PLUGIN_TEXT.format(n=n, t=["int", "str", "bool"][n % 3])
+        files["mypy.ini"] = "[mypy]\nplugins = simplug.py\n"
     for mid, mod in sorted(state["mods"].items()):
         if not mod["exists"]:
             continue
@@ -502,11 +520,39 @@ def gen_project(rng: random.Random, acyclic: bool = False, max_mods: int = 8) ->
     state["roots"] += extra_roots
     if rng.random() < 0.12:
         state["argv_mode"] = "dir"
+    if rng.random() < 0.15:
+        state["plugin"] = rng.randint(0, 5)
     return state
 
 
 # --------------------------------------------------------------------------
 # edit ops (absolute)
+
+
+def referenced_slots(state: dict[str, Any]) -> list[tuple[str, str]]:
+    """(module, name) pairs that some OTHER module's use, base class or annotation refers to."""
+    out = []
+    for mid, mod in sorted(state["mods"].items()):
+        for u in mod["uses"]:
+            if 0 <= u["imp"] < len(mod["imports"]):
+                tgt = mod["imports"][u["imp"]]["mod"]
+                if u.get("path"):
+                    tgt = u["path"][-1]
+                if tgt in state["mods"] and tgt != mid:
+                    out.append((tgt, u["name"]))
+        for sl in mod["slots"].values():
+            for key in ("base", "ret", "type", "target"):
+                for r in leaf_cls_refs(sl.get(key)) if sl.get(key) is not None else []:
+                    i = r["cls"][0]
+                    if 0 <= i < len(mod["imports"]) and mod["imports"][i]["mod"] in state["mods"]:
+                        out.append((mod["imports"][i]["mod"], r["cls"][1]))
+            if "reexport" in sl and 0 <= sl["reexport"] < len(mod["imports"]):
+                tgt = mod["imports"][sl["reexport"]]["mod"]
+                if tgt in state["mods"]:
+                    for nm, s2 in mod["slots"].items():
+                        if s2 is sl:
+                            out.append((tgt, nm))
+    return out
 
 
 def gen_edit(rng: random.Random, state: dict[str, Any], acyclic: bool = False) -> dict[str, Any]:
@@ -516,6 +562,11 @@ def gen_edit(rng: random.Random, state: dict[str, Any], acyclic: bool = False) -
     r = rng.random()
     if r < 0.42:
         name = rng.choice(FUNCS + CLASSES + VARS + ALIASES)
+        refs = referenced_slots(state)
+        if refs and rng.random() < 0.6:
+            # bias: change something another (untouched) module depends on
+            mid, name = rng.choice(refs)
+            mod = state["mods"][mid]
         spec = None if rng.random() < 0.15 else gen_slot(rng, mod, name)
         return {"e": "slot", "mod": mid, "name": name, "spec": spec}
     if r < 0.60 and mod["imports"]:
@@ -537,6 +588,9 @@ def gen_edit(rng: random.Random, state: dict[str, Any], acyclic: bool = False) -
         return {"e": "stub", "mod": mid, "value": not mod.get("stub")}
     if r < 0.90:
         return {"e": "broken", "mod": mid, "value": not mod.get("broken")}
+    if r < 0.915 and state.get("argv_mode") != "dir":
+        cur = state.get("plugin")
+        return {"e": "plugin", "mod": "m0", "value": rng.choice([None, (cur or 0) + 1, (cur or 0) + 2]) if cur is not None else rng.randint(0, 5)}
     if r < 0.94:
         return {"e": "inline", "mod": mid, "value": rng.choice([None, "ignore-errors", "disallow-any-expr", "no-strict-optional", "warn-return-any"])}
     return {"e": "touch", "mod": mid}
@@ -545,6 +599,9 @@ def gen_edit(rng: random.Random, state: dict[str, Any], acyclic: bool = False) -
 def apply_edit(state: dict[str, Any], op: dict[str, Any]) -> list[str]:
     """Mutates state; returns module ids whose files must be rewritten (or removed)."""
     mid = op["mod"]
+    if op["e"] == "plugin":
+        state["plugin"] = op["value"]
+        return []
     if mid not in state["mods"]:
         return []
     mod = state["mods"][mid]
